@@ -254,3 +254,13 @@ Proof.
   intros H. pose proof (int16_ok _ _ H) as [V [_ E]]. split; [|exact E].
   unfold val16 in V. destruct ((-65536 <? x) && (x <? 65536)) eqn:C; try discriminate. lia.
 Qed.
+
+(* the token acN by operand class (Spec.token_acc) *)
+Lemma acc_named_symbol c n t addr k :
+  sem_operand c (token_acc c n (Some t)) addr k =
+  match c with
+  | CFpRM => if (0 <=? n) && (n <=? 5) then Some (SAcc n) else None
+  | CAcc => if (0 <=? n) && (n <=? 3) then Some (SAcc n) else None
+  | _ => sem_operand c (ORel t) addr k
+  end.
+Proof. destruct c; reflexivity. Qed.
